@@ -134,10 +134,13 @@ def subsets(names):
 
 
 def stl_ok(mesh):
+    """every coordinate that a triangle uses fits in a float32"""
     try:
-        for p in mesh.get("vertices", []):
-            for c in p:
-                struct.pack("<f", c)
+        for f in mesh.get("faces", []):
+            if len(f) == 3:
+                for i in f:
+                    for c in mesh["vertices"][i]:
+                        struct.pack("<f", c)
     except OverflowError:
         return False
     return True
@@ -147,10 +150,11 @@ def test_roundtrip():
     n = 0
     for fmt in rc.FORMATS:
         for name, mesh in MESHES.items():
-            exp = expected(fmt, mesh)
             if fmt == "stl" and not stl_ok(mesh):
                 raises(ValueError, rc.write, "stl", mesh, lossy=True)
+                raises(ValueError, rc.project, "stl", mesh)
                 continue
+            exp = expected(fmt, mesh)
             check(rc.same(rc.project(fmt, mesh), exp), "project(%s, %s) disagrees with the test's expectation" % (fmt, name))
             base = [{}]
             if fmt == "stl":
@@ -177,12 +181,12 @@ def test_roundtrip():
                         got = rc.read(fmt, data)
                         check(rc.same(got, exp), "round trip %s / %s / %r:\n got %r\n exp %r\n file %r"
                               % (fmt, name, opts, rc.core(got), exp, data[:600]))
-                        _check_lexical(fmt, data, opts)
+                        _check_lexical(fmt, data, opts, bool(exp["vertices"]))
                         n += 1
     print("(a) %d write->read round trips bit-exact" % n)
 
 
-def _check_lexical(fmt, data, opts):
+def _check_lexical(fmt, data, opts, has_vertices):
     """the perturbations asked for are really in the bytes"""
     if fmt == "stl" and not opts.get("ascii"):
         return
@@ -200,8 +204,8 @@ def _check_lexical(fmt, data, opts):
         check(b"#" in data, "no comment written")
     if not opts.get("comments"):
         check(b"#" not in data, "unexpected comment")
-    if opts.get("exp_floats") and fmt != "stl":
-        pass
+    if opts.get("exp_floats") and has_vertices and (fmt != "stl" or opts.get("ascii")):
+        check(b"e+" in data or b"e-" in data, "no exponent notation")
     if opts.get("trailing_ws"):
         ls = [l for l in data.replace(b"\r\n", b"\n").split(b"\n") if l]
         check(all(l[-1:] in (b" ", b"\t") for l in ls), "no trailing white space")
@@ -550,10 +554,22 @@ def cross_check():
         return
     warnings.simplefilter("ignore")
     tmp = tempfile.mkdtemp(prefix="ref_codecs_", dir="/tmp")
+    try:
+        return _cross_check(tmp, np, M, _instanciate_raw_mesh_data)
+    finally:
+        shutil.rmtree(tmp, ignore_errors=True)
+
+
+def _cross_check(tmp, np, M, _instanciate_raw_mesh_data):
     findings = {}  # message -> list of cases
 
-    def note(direction, fmt, case, msg):
-        findings.setdefault((direction, fmt, msg), []).append(case)
+    def _note(direction, fmt, case, msg, detail=""):
+        f = findings.setdefault((direction, fmt, msg), {"cases": [], "detail": "", "where": ""})
+        f["cases"].append(case)
+        if detail and not f["detail"]:
+            f["detail"], f["where"] = detail, case
+
+    note = _note
 
     def to_mouette(mesh):
         V = np.array(mesh.get("vertices", []), dtype=float).reshape(-1, 3)
@@ -613,20 +629,35 @@ def cross_check():
         s = repr(x)
         return s if len(s) <= n else s[:n] + "..."
 
-    def compare_attrs(direction, fmt, case, want, got, subset):
+    def compare_attrs(direction, fmt, case, want, got, subset, note=None):
+        note = note or _note
+        """subset=True: the reading side may hold more attributes, and more elements per set (completed edges / faces
+        are appended after the ones of the file), so only the leading values are compared"""
         for s, attrs in want.items():
             for name, a in attrs.items():
                 b = got.get(s, {}).get(name)
                 if b is None:
-                    note(direction, fmt, case, "attribute %s.%s missing on the reading side" % (s, name))
-                elif not rc.same({"attributes": {s: {name: a}}}, {"attributes": {s: {name: b}}}):
-                    note(direction, fmt, case, "attribute %s.%s differs: wrote %s, read %s"
-                         % (s, name, short({k: a[k] for k in ("type", "arity", "values")}), short({k: b[k] for k in ("type", "arity", "values")})))
+                    elsewhere = [s2 for s2 in got if name in got[s2]]
+                    note(direction, fmt, case, "attribute on set '%s' missing on the reading side%s"
+                         % (s, " (found on set '%s' instead)" % elsewhere[0] if elsewhere else ""), name)
+                    continue
+                b = dict(b)
+                if subset:
+                    b["values"] = b["values"][:len(a["values"])]
+                if not rc.same({"attributes": {s: {name: a}}}, {"attributes": {s: {name: b}}}):
+                    note(direction, fmt, case, "attribute on set '%s' differs" % s, "%s: wrote %s, read %s"
+                         % (name, short({k: a[k] for k in ("type", "arity", "values")}), short({k: b[k] for k in ("type", "arity", "values")})))
         if not subset:
             for s, attrs in got.items():
                 for name in attrs:
                     if name not in want.get(s, {}):
-                        note(direction, fmt, case, "unexpected attribute %s.%s in the file: %s" % (s, name, short(attrs[name])))
+                        note(direction, fmt, case, "unexpected attribute on set '%s' in the file" % s, "%s: %s" % (name, short(attrs[name])))
+
+    def by_kind(recs):
+        d = {}
+        for r in recs:
+            d.setdefault(len(r), []).append(r)
+        return d
 
     cases = {k: MESHES[k] for k in ("cloud_weird", "polyline", "tri", "tri_weird", "quad", "mixed", "penta", "tri_edges",
                                     "tets", "hexes", "tet_hex", "stl_friendly")}
@@ -652,12 +683,12 @@ def cross_check():
             try:
                 M.mesh.save(m, path)
             except Exception as e:
-                note("mouette->ref", fmt, case, "mouette.save raised %s: %s" % (type(e).__name__, short(str(e))))
+                note("mouette->ref", fmt, case, "mouette.save raised %s" % type(e).__name__, short(str(e)))
                 continue
             try:
                 got = rc.read(fmt, open(path, "rb").read())
             except Exception as e:
-                note("mouette->ref", fmt, case, "reference reader refuses the file: %s" % short(str(e), 220))
+                note("mouette->ref", fmt, case, "reference reader refuses the file: " + "".join(c for c in str(e) if not c.isdigit())[:70], short(str(e), 240))
                 continue
             want = expected(fmt, held)
             if fmt == "stl":
@@ -669,30 +700,32 @@ def cross_check():
                 want = expected(fmt, {"vertices": held["vertices"], "faces": F2})
             if bits(got["vertices"]) != bits(want["vertices"]):
                 if len(got["vertices"]) != len(want["vertices"]):
-                    note("mouette->ref", fmt, case, "vertex count: file %d, mesh %d" % (len(got["vertices"]), len(want["vertices"])))
+                    note("mouette->ref", fmt, case, "vertex count differs", "file %d, mesh %d" % (len(got["vertices"]), len(want["vertices"])))
                 else:
                     bad = [(i, a, b) for i, (a, b) in enumerate(zip(got["vertices"], want["vertices"])) if bits([a]) != bits([b])]
-                    note("mouette->ref", fmt, case, "coordinates not bit-exact, e.g. vertex %d: file %r, mesh %r" % bad[0])
-            if got["faces"] != want["faces"]:
-                note("mouette->ref", fmt, case, "faces: file %s, mesh %s" % (short(got["faces"]), short(want["faces"])))
-            if got["cells"] != want["cells"]:
-                note("mouette->ref", fmt, case, "cells: file %s, mesh %s" % (short(got["cells"]), short(want["cells"])))
+                    note("mouette->ref", fmt, case, "coordinates not bit-exact", "vertex %d: file %r, mesh %r" % bad[0])
+            grouped = fmt == "mesh"  # medit groups elements by kind; the order of the groups is the writer's choice
+            if (by_kind(got["faces"]) != by_kind(want["faces"])) if grouped else (got["faces"] != want["faces"]):
+                note("mouette->ref", fmt, case, "faces differ", "file %s, mesh %s" % (short(got["faces"]), short(want["faces"])))
+            if (by_kind(got["cells"]) != by_kind(want["cells"])) if grouped else (got["cells"] != want["cells"]):
+                note("mouette->ref", fmt, case, "cells differ", "file %s, mesh %s" % (short(got["cells"]), short(want["cells"])))
             if rc.EXPRESSIBLE[fmt]["edges"]:
                 if got["edges"] != want["edges"]:
                     hard = eset(mesh.get("edges", []))
                     if eset(got["edges"]) == eset(want["edges"]):
                         note("mouette->ref", fmt, case, "edges: same set, different order / orientation")
                     elif eset(got["edges"]) == hard:
-                        note("mouette->ref", fmt, case, "edges: file holds only the edges given explicitly (hard edges), "
-                             "not the %d edges of the mesh" % len(want["edges"]))
+                        note("mouette->ref", fmt, case, "(dialect) edges: the file holds only the edges given explicitly ('hard edges'), "
+                             "not all the edges the mesh object holds", "file %d edges, mesh %d edges" % (len(got["edges"]), len(want["edges"])))
                     else:
-                        note("mouette->ref", fmt, case, "edges: file %s, mesh %s" % (short(got["edges"]), short(want["edges"])))
+                        note("mouette->ref", fmt, case, "edges differ", "file %s, mesh %s" % (short(got["edges"]), short(want["edges"])))
             elif got["edges"]:
                 note("mouette->ref", fmt, case, "edges in a format without edges")
             if fmt == "geogram_ascii":
                 compare_attrs("mouette->ref", fmt, case, held["attributes"], got["attributes"], subset=False)
 
     # ---------------- ref writes, mouette reads
+    plain_fail = set()
     for fmt in rc.FORMATS:
         variants = [{}] + [{p: True} for p in rc.LEGAL_PERTURBATIONS[fmt]]
         if len(rc.LEGAL_PERTURBATIONS[fmt]) > 1:
@@ -720,35 +753,84 @@ def cross_check():
                 with open(path, "wb") as f:
                     f.write(data)
                 cs = "%s[%s]" % (case, tag)
+
+                def rnote(msg, detail="", case=case, tag=tag, fmt=fmt):
+                    if tag == "plain":
+                        plain_fail.add((fmt, case, msg))
+                    elif (fmt, case, msg) in plain_fail:
+                        return  # already reported for the unperturbed file
+                    _note("ref->mouette", "%s [%s]" % (fmt, tag), case, msg, detail)
+                if fmt == "stl" and not v.get("ascii") and not want["faces"]:
+                    # a binary stl with zero triangles aborts the interpreter inside stl_reader: probe it in a child process
+                    import subprocess
+                    r = subprocess.run([sys.executable, "-W", "ignore", "-c", "import mouette as M; M.mesh.load(%r)" % path],
+                                       capture_output=True, text=True)
+                    if r.returncode != 0:
+                        rnote("mouette.load of a valid binary stl with 0 triangles (84 bytes) kills the interpreter",
+                             "exit status %d, %s" % (r.returncode, short(r.stderr.strip().splitlines()[-1:] or "")))
+                    continue
                 try:
                     got = from_mouette(M.mesh.load(path))
                 except Exception as e:
-                    note("ref->mouette", fmt, cs, "mouette.load raised %s: %s" % (type(e).__name__, short(str(e))))
+                    rnote("mouette.load raised %s" % type(e).__name__, short(str(e)))
+                    continue
+                if fmt == "stl":
+                    # stl has no vertex table: compare the triangles as coordinate triples (the loader may merge corners)
+                    soup = lambda d: [[bits([d["vertices"][i]])[0] for i in f] for f in d["faces"]]
+                    try:
+                        if soup(got) != soup(want):
+                            rnote("triangle soup differs", "loaded %s, file %s"
+                                 % (short([[got["vertices"][i] for i in f] for f in got["faces"]]),
+                                    short([[want["vertices"][i] for i in f] for f in want["faces"]])))
+                    except IndexError:
+                        rnote("loaded faces refer to missing vertices")
+                    if len(got["vertices"]) != len(want["vertices"]):
+                        rnote("(dialect) corners with identical coordinates are merged into one vertex on load",
+                             "loaded %d vertices for %d triangles" % (len(got["vertices"]), len(got["faces"])))
+                    if got["cells"]:
+                        rnote("cells loaded from an stl")
                     continue
                 if bits(got["vertices"]) != bits(want["vertices"]):
                     if len(got["vertices"]) != len(want["vertices"]):
-                        note("ref->mouette", fmt, cs, "vertex count: loaded %d, file %d" % (len(got["vertices"]), len(want["vertices"])))
+                        rnote("vertex count differs", "loaded %d, file %d" % (len(got["vertices"]), len(want["vertices"])))
                     else:
                         bad = [(i, a, b) for i, (a, b) in enumerate(zip(got["vertices"], want["vertices"])) if bits([a]) != bits([b])]
-                        note("ref->mouette", fmt, cs, "coordinates not bit-exact, e.g. vertex %d: loaded %r, file %r" % bad[0])
+                        rnote("coordinates not bit-exact", "vertex %d: loaded %r, file %r" % bad[0])
                 if got["cells"] != want["cells"]:
-                    note("ref->mouette", fmt, cs, "cells: loaded %s, file %s" % (short(got["cells"]), short(want["cells"])))
+                    rnote("cells differ", "loaded %s, file %s" % (short(got["cells"]), short(want["cells"])))
                 nf = len(want["faces"])
                 if got["faces"][:nf] != want["faces"] or (len(got["faces"]) != nf and not want["cells"]):
-                    note("ref->mouette", fmt, cs, "faces: loaded %s, file %s" % (short(got["faces"]), short(want["faces"])))
+                    rnote("faces differ", "loaded %s, file %s" % (short(got["faces"]), short(want["faces"])))
                 missing = [e for e in eset(want["edges"]) if e not in set(eset(got["edges"]))]
                 if missing:
-                    note("ref->mouette", fmt, cs, "edges of the file missing after load: %s" % short(missing))
-                if want["edges"] and not want["faces"] and not want["cells"] and eset(got["edges"]) != eset(want["edges"]):
-                    note("ref->mouette", fmt, cs, "edges: loaded %s, file %s" % (short(got["edges"]), short(want["edges"])))
+                    rnote("edges of the file missing after load",
+                         "missing %s; loaded %s, file %s" % (short(missing), short(got["edges"]), short(want["edges"])))
+                elif want["edges"] and not want["faces"] and not want["cells"] and eset(got["edges"]) != eset(want["edges"]):
+                    rnote("edges differ", "loaded %s, file %s" % (short(got["edges"]), short(want["edges"])))
                 if fmt == "geogram_ascii":
-                    compare_attrs("ref->mouette", fmt, cs, want["attributes"], got["attributes"], subset=True)
+                    compare_attrs("ref->mouette", fmt, cs, want["attributes"], got["attributes"], subset=True, note=lambda d, f, c, m, detail="": rnote(m, detail))
 
-    shutil.rmtree(tmp, ignore_errors=True)
+    # a binary stl whose 80 byte header happens to start with "solid" (legal, common): probed in a child process
+    import subprocess
+    path = os.path.join(tmp, "solid_header.stl")
+    with open(path, "wb") as f:
+        f.write(b"solid but binary".ljust(80, b" ") + struct.pack("<I", 1)
+                + struct.pack("<12f", 0, 0, 1, 0, 0, 0, 1, 0, 0, 0, 1, 0) + b"\0\0")
+    check(rc.read("stl", open(path, "rb").read())["faces"] == [[0, 1, 2]], "reference reads the solid-header binary stl")
+    r = subprocess.run([sys.executable, "-W", "ignore", "-c",
+                        "import mouette as M; m = M.mesh.load(%r); assert len(m.faces) == 1" % path], capture_output=True, text=True)
+    if r.returncode != 0:
+        _note("ref->mouette", "stl [hand-made]", "one triangle, header 'solid but binary'",
+              "mouette.load of a binary stl whose header starts with 'solid' fails",
+              "exit status %d, %s" % (r.returncode, short(r.stderr.strip().splitlines()[-1:] or "")))
     print("(c) cross-check against mouette: %d distinct disagreements (informational)" % len(findings))
-    for (direction, fmt, msg), cs in sorted(findings.items()):
-        shown = ", ".join(cs[:4]) + (" ... (+%d)" % (len(cs) - 4) if len(cs) > 4 else "")
-        print("  [%s] %-13s %s\n      cases: %s" % (direction, fmt, msg, shown))
+    for (direction, fmt, msg), f in sorted(findings.items()):
+        cs = f["cases"]
+        shown = ", ".join(cs[:5]) + (" ... (+%d)" % (len(cs) - 5) if len(cs) > 5 else "")
+        print("  [%s] %s: %s" % (direction, fmt, msg))
+        if f["detail"]:
+            print("      e.g. %s: %s" % (f["where"], f["detail"]))
+        print("      cases: %s" % shown)
     return findings
 
 
